@@ -47,6 +47,13 @@ def candidate_programs(seed, tier):
         out.append(("corpus:" + os.path.basename(p), open(p, "rb").read().decode("latin1")))
     from . import runshapes
     out.extend(runshapes.programs())
+    from . import declshapes
+    for i, k, t in declshapes.stream():
+        m = re.match(r"decl:(ladder|aliaschain|callchain):(\d+)", i)
+        if m and int(m.group(2)) > 4:      # duplication doubles per level at run time
+            continue
+        if re.search(r"\bprc\b|\bexec\b", t):
+            out.append((i, t))
     for i, t in T.harvest_seeds():
         if len(t) < 6000:
             out.append((i, t))
